@@ -69,6 +69,12 @@ func parseV3(data string) (l *V3, err error) {
 		return nil, err
 	}
 
+	// The license starts with two length-prefixed byte slices, make sure the lengths are sane
+	// since the decoder allocates whatever they announce
+	if !validSliceLengths(raw, 2) {
+		return nil, fmt.Errorf("license: malformed v3 license")
+	}
+
 	// Unmarshal the license
 	var license V3
 	err = binary.Unmarshal(raw, &license)
